@@ -638,7 +638,8 @@ def _build_tools():
     return ["--tools", out]
 
 prop("C20",
-     units=lambda tier: [Unit("c20", "c20.cpp", SHIPPED, cases=scale(tier, 2500, 40000), shards=16, args=_build_tools,
+     units=lambda tier: [Unit("c20", "c20.cpp", SHIPPED, cases=scale(tier, 2500, 40000), shards=16,
+                              args=(lambda: _build_tools() + ["--bigfile", "1"]) if tier == "thorough" else _build_tools,
                               env={"SKV_TMP": skv._mk(os.path.join(skv.BUILD, "tmp"))})],
      level="exploration",
      rule=("process-level cases: tool in {skinny-ctr, skinny-tweak, skinny-ecb} x block size {64, 128; -b given or defaulted} x key of "
